@@ -35,6 +35,47 @@ def pyIdx (l : List Int) (k : Int) : Option Int :=
   else if -(l.length : Int) ≤ k then l[((l.length : Int) + k).toNat]?
   else none
 
+/-! ### small strings: a Python `str` is the `List Int` of its code points -/
+
+/-- decimal digits of a natural number (most significant first), as code points; structural in the fuel so
+that the kernel can evaluate it -/
+def decDigitsAux : Nat → Nat → List Int → List Int
+  | 0, _, acc => acc
+  | f + 1, n, acc =>
+    if n < 10 then ((48 + n : Nat) : Int) :: acc else decDigitsAux f (n / 10) (((48 + n % 10 : Nat) : Int) :: acc)
+
+def decDigits (n : Nat) : List Int := decDigitsAux (n + 1) n []
+
+/-- Python `str(n)` for an int -/
+def pyStr (n : Int) : List Int := if n < 0 then 45 :: decDigits n.natAbs else decDigits n.natAbs
+
+/-- Python `"{:0Wd}".format(n)` (`W = 0`: `"{:d}"` / `"{}"`): sign-aware zero padding to width W -/
+def pyFmtD (w : Nat) (n : Int) : List Int :=
+  let d := decDigits n.natAbs
+  if n < 0 then 45 :: (List.replicate (w - 1 - d.length) (48 : Int) ++ d)
+  else List.replicate (w - d.length) (48 : Int) ++ d
+
+/-- Python `"{:0>W}".format(n)` for an int: `str(n)` right-aligned in width W with fill `0` (NOT sign-aware) -/
+def pyFmtFill (w : Nat) (n : Int) : List Int :=
+  let d := pyStr n
+  List.replicate (w - d.length) (48 : Int) ++ d
+
+/-- Python `int(s)` for a string made of ASCII digits with an optional leading `-` (the only strings the
+translator lets reach `int`): `none` = ValueError (empty, lone sign, a sign or other character inside) -/
+def pyIntOfDigits : List Int → Option Nat
+  | [] => none
+  | l => l.foldl (fun (acc : Option Nat) (c : Int) => match acc with
+      | none => none
+      | some a => if 48 ≤ c ∧ c ≤ 57 then some (a * 10 + (c - 48).toNat) else none) (some 0)
+
+def pyIntOfStr : List Int → Option Int
+  | 45 :: rest => (pyIntOfDigits rest).map (fun n => -(n : Int))
+  | 43 :: rest => (pyIntOfDigits rest).map (fun n => (n : Int))
+  | l => (pyIntOfDigits l).map (fun n => (n : Int))
+
+/-- Python `chr(n)`: ValueError outside `range(0x110000)` -/
+def pyChr (n : Int) : Option (List Int) := if 0 ≤ n ∧ n < 1114112 then some [n] else none
+
 /-- canonical one-line rendering of a translated function's result (driver protocol):
 ints in decimal, bools `T`/`F`, tuples right-nested `(a,(b,c))`, lists `[x,y]`, Python `None` as
 `None`.  A raise is rendered `reject` by the generated dispatcher. -/
